@@ -888,7 +888,7 @@ package server
 // same as on a server that applied those operations live (determinism clause: "servers that applied the same sequence
 // of group operations hand out identical assignments for the same group epoch")
 //@ func (*consumerGroup).StartRecovered serves C12
-//@   requires c != nil
+//@   assumes c != nil
 //@   ensures [recovery-ended] !c.recovered
 //@   ensures [the-epoch-and-the-tables-are-what-the-replay-left] c.epoch == old(c.epoch) && c.members == old(c.members) && c.subscribers == old(c.subscribers) && c.coordinator == old(c.coordinator)
 //@   ensures [no-member-is-handed-or-loses-a-partition] forall m *consumer :: m != nil ==> m.assignedCount == old(m.assignedCount) && m.assignments == old(m.assignments)
